@@ -552,14 +552,36 @@ func (x *Exec) load(st *State, addr Value, in ssa.Instruction) Value {
 			sv.Fs = append(sv.Fs, loadField(st, p.Ty.Named, i, p.Ref))
 		}
 		return sv
+	case PCellField:
+		sv, ok := st.cells[p.A].(VStruct)
+		if !ok {
+			vfail("load of a field of a non-struct cell")
+		}
+		return sv.Fs[p.Field]
 	case PStrHdr:
-		// unsafe reinterpretation of a string header as a slice header: same bytes, same length;
-		// the capacity word is unspecified by Go - assumed >= len (listed assumption).
-		x.W.Assumes["unsafe: a string header read as []byte shares the string's bytes and length; its capacity word is assumed >= len (bitstr.StrCmpUpto)"] = true
+		// unsafe reinterpretation of a 2-word string header as a 3-word slice header: same bytes,
+		// same length; the capacity is the word that happens to follow the string header in
+		// memory - UNSPECIFIED. The obligation below demands a well-formed slice (len <= cap):
+		// it cannot be discharged for a bare string header.
+		x.W.Assumes["unsafe: a string header read as []byte shares the string's bytes and length; its capacity word is unspecified (whatever follows the string in memory)"] = true
 		c := FreshVar("unsafecap", IdxSort)
+		x.oblige(st, "unsafe", instrOrd(in), "a header reinterpreted as []byte is a well-formed slice: 0 <= len <= cap", in.Pos(), And(BVCmp("bvsle", BVInt(0, 64), p.S.Len), BVCmp("bvsle", p.S.Len, c)))
 		st.assume(BVCmp("bvsle", p.S.Len, c))
 		st.assume(BVCmp("bvsle", c, BVInt(int64(1)<<48, 64)))
 		return VSlice{Reg: p.S.Reg, Off: p.S.Off, Len: p.S.Len, Cap: c, Ty: &STy{K: TSlice, Elem: tyU8}}
+	case PSliceHdrObj:
+		// unsafe reinterpretation of a struct {string; int} as a slice header: pointer and length
+		// from the string, capacity from the integer (same memory layout: three words)
+		x.W.Assumes["unsafe: a struct {string; int} read as []byte is the slice header (string's bytes, string's length, the int as capacity): identical three-word layout"] = true
+		x.nilCheck(st, p.Obj, in)
+		sv, ok1 := loadField(st, p.Obj.Ty.Named, 0, p.Obj.Ref).(VSlice)
+		cv, ok2 := loadField(st, p.Obj.Ty.Named, 1, p.Obj.Ref).(VScalar)
+		if !ok1 || !ok2 {
+			vfail("unsafe slice-header view of an unexpected struct")
+		}
+		x.oblige(st, "unsafe", instrOrd(in), "a header reinterpreted as []byte is a well-formed slice: 0 <= len <= cap", in.Pos(), And(BVCmp("bvsle", BVInt(0, 64), sv.Len), BVCmp("bvsle", sv.Len, cv.T)))
+		st.assume(BVCmp("bvsle", sv.Len, cv.T))
+		return VSlice{Reg: sv.Reg, Off: sv.Off, Len: sv.Len, Cap: cv.T, Ty: &STy{K: TSlice, Elem: tyU8}}
 	}
 	vfail("load through unsupported pointer %T", addr)
 	return nil
@@ -613,6 +635,14 @@ func (x *Exec) store(st *State, addr Value, v Value, in ssa.Instruction) {
 	switch p := addr.(type) {
 	case PCell:
 		st.cells[p.A] = v
+	case PCellField:
+		sv, ok := st.cells[p.A].(VStruct)
+		if !ok {
+			vfail("store to a field of a non-struct cell")
+		}
+		nf := append([]Value(nil), sv.Fs...)
+		nf[p.Field] = v
+		st.cells[p.A] = VStruct{Ty: sv.Ty, Fs: nf}
 	case PElem:
 		x.frameCheckRegion(st, p.Reg, in)
 		storeElem(st, p.Ty, p.Reg, p.Idx, v)
@@ -879,7 +909,7 @@ func (x *Exec) convert(st *State, i *ssa.Convert) Value {
 	case from.K == TSlice && to.K == TSlice && from.IsStr != to.IsStr && from.Elem.K == TInt && from.Elem.W == 8 && to.Elem.K == TInt && to.Elem.W == 8:
 		// string(bytes) / []byte(string): fresh copy
 		return x.copyBytes(st, asSlice(v), to)
-	case to.K == TOpaque:
+	case to.K == TOpaque && !(from.K == TOpaque && isBytesSliceType(i.Type())):
 		// conversions to unsafe.Pointer keep the underlying pointer
 		return v
 	case from.K == TOpaque:
@@ -887,6 +917,14 @@ func (x *Exec) convert(st *State, i *ssa.Convert) Value {
 		if pc, ok := v.(PCell); ok {
 			if sv, ok := st.cells[pc.A].(VSlice); ok && sv.Ty.IsStr {
 				return PStrHdr{sv}
+			}
+		}
+		if po, ok := v.(PObj); ok && po.Ty != nil && po.Ty.Named != nil && isBytesSliceType(i.Type()) {
+			if sd, ok := po.Ty.Named.Underlying().(*types.Struct); ok && sd.NumFields() == 2 {
+				f0, f1 := tyFromGo(sd.Field(0).Type()), tyFromGo(sd.Field(1).Type())
+				if f0.K == TSlice && f0.IsStr && f1.K == TInt && f1.W == 64 {
+					return PSliceHdrObj{po}
+				}
 			}
 		}
 		if s, ok := v.(VScalar); ok && s.Ty.K == TInt {
@@ -902,6 +940,20 @@ func (x *Exec) convert(st *State, i *ssa.Convert) Value {
 	}
 	// float conversions etc.
 	return VOpaque{to, fmt.Sprintf("convert %s -> %s", i.X.Type(), i.Type())}
+}
+
+// isBytesSliceType: *[]byte
+func isBytesSliceType(t types.Type) bool {
+	p, ok := t.Underlying().(*types.Pointer)
+	if !ok {
+		return false
+	}
+	s, ok := p.Elem().Underlying().(*types.Slice)
+	if !ok {
+		return false
+	}
+	b, ok := s.Elem().Underlying().(*types.Basic)
+	return ok && b.Kind() == types.Uint8
 }
 
 func (x *Exec) copyBytes(st *State, src VSlice, to *STy) Value {
@@ -989,7 +1041,10 @@ func (x *Exec) fieldAddr(st *State, i *ssa.FieldAddr) Value {
 	case PObj:
 		return PField{b, i.Field}
 	case PCell:
-		vfail("FieldAddr on local struct cell not supported")
+		if _, ok := st.cells[b.A].(VStruct); ok {
+			return PCellField{b.A, i.Field}
+		}
+		vfail("FieldAddr on local cell that does not hold a struct")
 	}
 	vfail("FieldAddr on %T", base)
 	return nil
